@@ -331,10 +331,18 @@ def subnets(tree):
         if isinstance(i, dict): out += subnets(i)
     return out
 
+def strict_on_path(case):
+    """downstream reachability (streams in `ends` cut) is irreflexive and transitive on the items of the path"""
+    sm = succ_map(case, set(case['ends']))
+    p = case['path']
+    down = {a: closure(sm, a) for a in p}
+    return (all(a not in down[a] for a in p) and
+            all(c in down[a] for a in p for b in p for c in p if b in down[a] and c in down[b]))
+
 def coq_case(case, out):
     if case['kind'] == 'sort':
         return (f'(sort_case {cedges(case)} {nl(case["ends"])} {nl(case["path"])} {nl(out["path"])} '
-                f'{cbool(out["stop"])} {nl(out["recycle"])} {clist(out["down"], nl)})')
+                f'{cbool(out["stop"])} {nl(out["recycle"])} {clist(out["down"], nl)} {cbool(strict_on_path(case))})')
     if 'raised' in out:
         return 'false'
     t = ctree(out['tree'])
@@ -364,8 +372,7 @@ def nontrivial(case, out):
 def classify(case, out):
     ks = ['kind:' + case['kind'], f'units:{case["n"]}', 'graph:' + ('cyclic' if is_cyclic(case) else 'acyclic')]
     if case['kind'] == 'sort':
-        cut_cyclic = is_cyclic(case, set(case['ends']))
-        ks.append('sort:reach-' + ('cyclic' if cut_cyclic else 'strict-order'))
+        ks.append('sort:reach-' + ('strict-order' if strict_on_path(case) else 'cyclic'))
         ks.append('sort:' + ('moved' if out.get('path') != case['path'] else 'already-ordered'))
         if out.get('recycle'): ks.append('sort:recycle-added')
         if out.get('stop') is False: ks.append('sort:warned')
@@ -389,7 +396,7 @@ def verdict(case, out):
         if sorted(out['path']) != sorted(case['path']):
             return f'sort: result {out["path"]} is not a permutation of {case["path"]}'
         cut = set(case['ends'])
-        if not is_cyclic(case, cut):
+        if strict_on_path(case):
             sm = succ_map(case, cut)
             p = out['path']
             for i in range(len(p)):
